@@ -16,6 +16,7 @@ def dispatch (st : St) (line : String) : St × Option String :=
   else if st.inIr then ({ st with ir := IR.addLine st.ir line }, none)
   else
   match (line.splitOn " ").filter (· ≠ "") with
+  | "bfalloc" :: rest => (st, some (Driver.C03.handleAlloc rest))
   | "bf" :: rest => (st, some (Driver.C03.handle rest))
   | ["irderives"] => (st, some (Driver.C08.derives st.ir))
   | ["irchk", seed] => (st, some (Driver.C07.check st.ir (seed.toNat?.getD 0)))
